@@ -109,8 +109,21 @@ def compute(f, loop_bound=2):
                 "flags": tuple(sorted(o["flags"])),
             } for o in outs]
         cells[fn] = table
+    # the operator table by node kind, through the evaluator's own arm (independent of how operators are factored)
+    raw_k = evalsum.kind_cells(f, disp, [v["name"] for v in f.adts[evalsum.EXPR]["variants"]])
+    cells_by_kind = {}
+    for kind, tab in raw_k.items():
+        cells_by_kind[kind] = {}
+        for combo, outs in tab.items():
+            cells_by_kind[kind][combo] = [{
+                "conds": tuple(sorted(set(norm_cond(c) for c in o["conds"]))),
+                "ret": show(norm(o["ret"])),
+                "cls": evalsum.outcome_class(o["ret"]),
+                "asserts": tuple(e[1] for e in o["events"] if e[0] == "assert"),
+                "flags": tuple(sorted(o["flags"])),
+            } for o in outs]
     out = {"loop_bound": loop_bound, "evaluator": disp["fn"], "coroutine": disp["coroutine"], "rows": rows, "opfns": opfns,
-           "op_of_kind": {k: sorted(v) for k, v in op_of_kind.items()}, "cells": cells}
+           "op_of_kind": {k: sorted(v) for k, v in op_of_kind.items()}, "cells": cells, "cells_by_kind": cells_by_kind}
     # the context's lookup methods are private: they are named after their role (the method a Reference / Symbol /
     # Function node calls) so that the specification does not depend on what the crate calls them today
     import anchors
